@@ -196,7 +196,17 @@ func runCase(c Case, ctx *hx.Ctx) *hx.Failure {
 			case <-time.After(30 * time.Second):
 			}
 		}
-		return hx.Failf("C07/call-does-not-return", "engine=%s datagram=%v: call %d did not return within %v after %s", c.Engine, c.Datagram, cl.idx, grace, why)
+		var stacks []string
+		for _, g := range quiesce.With("c07.runCase.func") {
+			if strings.Contains(g.Stack, "Exchange") {
+				lines := strings.Split(g.Stack, "\n")
+				if len(lines) > 16 {
+					lines = lines[:16]
+				}
+				stacks = append(stacks, strings.Join(lines, "\n"))
+			}
+		}
+		return hx.Failf("C07/call-does-not-return", "engine=%s datagram=%v: call %d did not return within %v after %s; callers still inside the transport:\n%s", c.Engine, c.Datagram, cl.idx, grace, why, strings.Join(stacks, "\n--\n"))
 	}
 	onWire := func(cl *call) bool { return len(w.Seen(cl.name)) > 0 }
 	faults, nCancel, nFire := 0, 0, 0
@@ -296,13 +306,27 @@ func runCase(c Case, ctx *hx.Ctx) *hx.Failure {
 				continue
 			}
 			cl := cand[a.J%len(cand)]
-			seen := w.Seen(cl.name)
-			s := seen[len(seen)-1]
-			if fc := w.Conn(s.Conn); fc == nil || fc.IsClosed() {
-				continue
+			// The reply goes to the query's most recent transmission. A fault injected earlier may still be making the
+			// transport move the query to another connection: if a newer transmission shows up after the reply was sent,
+			// that reply went to an attempt the transport had already given up, and the new transmission is answered.
+			var f *hx.Failure
+			for round := 0; round < 5; round++ {
+				quiesce.WaitGone("loseWithErr", time.Second)
+				seen := w.Seen(cl.name)
+				s := seen[len(seen)-1]
+				if fc := w.Conn(s.Conn); fc == nil || fc.IsClosed() {
+					f = nil
+					break
+				}
+				w.Answer(s, 0, nil)
+				if f = mustEnd(cl, "its reply was delivered"); f == nil {
+					break
+				}
+				if len(w.Seen(cl.name)) == len(seen) {
+					break // no newer transmission: the reply reached the attempt the call is waiting on
+				}
 			}
-			w.Answer(s, 0, nil)
-			if f := mustEnd(cl, "its reply was delivered"); f != nil {
+			if f != nil {
 				return f
 			}
 		case "fault":
@@ -398,9 +422,17 @@ func runCase(c Case, ctx *hx.Ctx) *hx.Failure {
 				continue
 			}
 			fc.WaitReaderIdle(time.Second)
-			time.Sleep(300 * time.Microsecond) // let the caller arm the waiting-for-reply deadline
-			dl, _ := fc.ReadDeadline()
-			last := fc.LastWriteAt()
+			// let the caller arm the waiting-for-reply deadline: it does so right after its write returned, which the
+			// harness cannot see; the verdict is taken when the deadline is near, or after 2 s of it staying far
+			var dl, last time.Time
+			for until := time.Now().Add(2 * time.Second); ; {
+				time.Sleep(300 * time.Microsecond)
+				dl, _ = fc.ReadDeadline()
+				last = fc.LastWriteAt()
+				if (!dl.IsZero() && dl.Sub(last) <= 60*time.Second) || time.Now().After(until) {
+					break
+				}
+			}
 			if dl.IsZero() {
 				return hx.Failf("C07/no-liveness-deadline", "engine=%s datagram=%v: %d queries are waiting on connection %d and the server is silent, but no read deadline is in force", c.Engine, c.Datagram, len(on), fc.ID)
 			}
